@@ -380,7 +380,8 @@ class World(object):
         if k == "open":
             return {"type": "open", "mailbox": ev[2]}
         if k == "add":
-            m = {"type": "add", "phase": ev[2], "body": ev[3]}
+            # a client cannot choose the side a message is stamped with: whatever it puts there must be ignored
+            m = {"type": "add", "phase": ev[2], "body": ev[3], "side": "side-claimed-in-the-add-command"}
             if len(ev) > 4 and ev[4] is not None:
                 m["id"] = ev[4]
             return m
